@@ -193,7 +193,7 @@ PROPS["C06"]["tasks"] += SKELETON + ["SequentialRunner._generate_sessions[sessio
                           "Market._extract_sequential_data_by_time[counters,times]"]
 PROPS["C10"]["tasks"] += ["Logger.write", "Log.read_and_write", "Logger._process", "Logger.process"]
 PROPS["C10"]["not_decided"] = []
-PROPS["C04"]["tasks"] += ["Order.__init__", "SequentialRunner._collect_orders_from_normal_agents[Order]", "SequentialRunner._collect_orders_from_normal_agents[Cancel]",
+PROPS["C04"]["tasks"] += ["Order.__init__", "Order lifetime predicates", "SequentialRunner._collect_orders_from_normal_agents[Order]", "SequentialRunner._collect_orders_from_normal_agents[Cancel]",
                           "SequentialRunner._handle_orders[hft-phase,Order]", "SequentialRunner._handle_orders[hft-phase,Cancel]"]
 PROPS["C04"]["not_decided"] = []
 for _p in ("C02", "C04"):
